@@ -15,12 +15,395 @@ def HexHash (h : Bytes → Bytes) : Prop := ∀ x, (h x).length = reHexLen ∧ (
 /-- `pat` does not occur in `X ++ Y` starting at any position inside `X`. -/
 def NoOccBefore (pat X Y : Bytes) : Prop := ∀ k, k < X.length → isPrefix pat ((X ++ Y).drop k) = false
 
+/-! ### Closed facts about the generated constants -/
+
+theorem signingToken_eq : signingToken = genPrefix ++ newToken := by decide
+theorem rePrefix_eq : rePrefix = genPrefix ++ sigOpen := by decide
+theorem reSuffix_eq : reSuffix = sigClose := by decide
+theorem newToken_ne_nil : newToken ≠ [] := by decide
+theorem newToken_length : newToken.length = 48 := by decide
+theorem reSuffix_length : reSuffix.length = 2 := by decide
+theorem rePrefix_length : rePrefix.length = 25 := by decide
+theorem reHexLen_eq : reHexLen = 32 := by decide
+theorem matchLen_eq : matchLen = 59 := by decide
+theorem hashSliceStart_eq : hashSliceStart = 25 := by decide
+theorem hashSliceEndBack_eq : hashSliceEndBack = 2 := by decide
+theorem matchHere_nil : matchHere [] = false := by decide
+
+/-! ### `isPrefix` -/
+
+theorem isPrefix_append (p t : Bytes) : isPrefix p (p ++ t) = true := by
+  induction p with
+  | nil => simp [isPrefix]
+  | cons a p ih => simp [isPrefix, ih]
+
+theorem isPrefix_length {p s : Bytes} (h : isPrefix p s = true) : p.length ≤ s.length := by
+  induction p generalizing s with
+  | nil => simp
+  | cons a p ih =>
+    cases s with
+    | nil => simp [isPrefix] at h
+    | cons x xs =>
+      simp [isPrefix] at h
+      have := ih h.2
+      simp
+      omega
+
+/-! ### `NoOccBefore` -/
+
+theorem NoOccBefore.head {pat : Bytes} {x : UInt8} {X Y : Bytes} (h : NoOccBefore pat (x :: X) Y) :
+    isPrefix pat (x :: (X ++ Y)) = false := by
+  have := h 0 (by simp)
+  simpa using this
+
+theorem NoOccBefore.tail {pat : Bytes} {x : UInt8} {X Y : Bytes} (h : NoOccBefore pat (x :: X) Y) :
+    NoOccBefore pat X Y := by
+  intro k hk
+  have := h (k + 1) (by simp; omega)
+  simpa using this
+
+/-! ### `replaceAllAux` -/
+
+theorem replaceAllAux_pass (pat rep : Bytes) : ∀ (X Y : Bytes) (n : Nat),
+    NoOccBefore pat X Y → X.length ≤ n →
+    replaceAllAux pat rep n (X ++ Y) = X ++ replaceAllAux pat rep (n - X.length) Y := by
+  intro X
+  induction X with
+  | nil => intro Y n _ _; simp
+  | cons x X ih =>
+    intro Y n h hn
+    cases n with
+    | zero => simp at hn
+    | succ n =>
+      have h0 := h.head
+      have hn' : X.length ≤ n := by simpa using hn
+      simp only [List.cons_append, replaceAllAux, h0]
+      simp [ih Y n h.tail hn']
+
+theorem replaceAllAux_occ (pat rep : Bytes) (hp : pat ≠ []) (Y : Bytes) (n : Nat) :
+    replaceAllAux pat rep (n + 1) (pat ++ Y) = rep ++ replaceAllAux pat rep n Y := by
+  cases pat with
+  | nil => exact absurd rfl hp
+  | cons p ps =>
+    have h1 : isPrefix (p :: ps) (p :: (ps ++ Y)) = true := isPrefix_append (p :: ps) Y
+    have h2 : (p :: (ps ++ Y)).drop (p :: ps).length = Y :=
+      List.drop_left (l₁ := p :: ps) (l₂ := Y)
+    simp only [List.cons_append, replaceAllAux]
+    rw [if_pos ⟨by simp, h1⟩, h2]
+
+theorem replaceAllAux_none (pat rep : Bytes) : ∀ (B : Bytes) (n : Nat),
+    NoOccBefore pat B [] → replaceAllAux pat rep n B = B := by
+  intro B
+  induction B with
+  | nil => intro n _; cases n <;> simp [replaceAllAux]
+  | cons x B ih =>
+    intro n h
+    cases n with
+    | zero => simp [replaceAllAux]
+    | succ n =>
+      have h0 := h.head
+      simp only [List.append_nil] at h0
+      simp only [replaceAllAux, h0]
+      simp [ih n h.tail]
+
+theorem sign_single (h : Bytes → Bytes) (A B : Bytes)
+    (hA : NoOccBefore newToken (A ++ genPrefix) (newToken ++ B))
+    (hB : NoOccBefore newToken B []) :
+    sign h (A ++ signingToken ++ B)
+      = A ++ genPrefix ++ signature h (A ++ signingToken ++ B) ++ B := by
+  unfold sign replaceAll
+  generalize signature h (A ++ signingToken ++ B) = sg
+  have hc : A ++ signingToken ++ B = (A ++ genPrefix) ++ (newToken ++ B) := by
+    simp [signingToken_eq]
+  rw [hc, replaceAllAux_pass _ _ _ _ _ hA (by simp)]
+  have hf : ((A ++ genPrefix) ++ (newToken ++ B)).length - (A ++ genPrefix).length
+      = (47 + B.length) + 1 := by
+    simp only [List.length_append, newToken_length]
+    omega
+  rw [hf, replaceAllAux_occ _ _ newToken_ne_nil, replaceAllAux_none _ _ _ _ hB]
+  simp
+
+/-! ### `matchHere` -/
+
+theorem matchHere_build (hx B : Bytes) (hl : hx.length = reHexLen) (hhex : hx.all isHex = true) :
+    matchHere (rePrefix ++ (hx ++ (reSuffix ++ B))) = true := by
+  unfold matchHere
+  have d1 : (rePrefix ++ (hx ++ (reSuffix ++ B))).drop rePrefix.length = hx ++ (reSuffix ++ B) :=
+    List.drop_left
+  have t1 : (hx ++ (reSuffix ++ B)).take reHexLen = hx := List.take_left' hl
+  have d2 : (rePrefix ++ (hx ++ (reSuffix ++ B))).drop (rePrefix.length + reHexLen)
+      = reSuffix ++ B := by
+    rw [← List.drop_drop, d1, List.drop_left' hl]
+  rw [d1, t1, d2, isPrefix_append, isPrefix_append, hl, hhex]
+  simp
+
+theorem matchHere_length {s : Bytes} (h : matchHere s = true) : matchLen ≤ s.length := by
+  unfold matchHere at h
+  simp only [Bool.and_eq_true] at h
+  have h2 := isPrefix_length h.2
+  rw [List.length_drop] at h2
+  have := reSuffix_length
+  unfold matchLen
+  omega
+
+/-! ### `unsignAllAux` -/
+
+theorem unsignAllAux_pass : ∀ (X Y : Bytes) (n : Nat),
+    (∀ k, k < X.length → matchHere ((X ++ Y).drop k) = false) → X.length ≤ n →
+    unsignAllAux n (X ++ Y) = X ++ unsignAllAux (n - X.length) Y := by
+  intro X
+  induction X with
+  | nil => intro Y n _ _; simp
+  | cons x X ih =>
+    intro Y n h hn
+    cases n with
+    | zero => simp at hn
+    | succ n =>
+      have h0 : matchHere (x :: (X ++ Y)) = false := by
+        have := h 0 (by simp)
+        simpa using this
+      have hn' : X.length ≤ n := by simpa using hn
+      have ht : ∀ k, k < X.length → matchHere ((X ++ Y).drop k) = false := by
+        intro k hk
+        have := h (k + 1) (by simp; omega)
+        simpa using this
+      simp only [List.cons_append, unsignAllAux, h0]
+      simp [ih Y n ht hn']
+
+theorem unsignAllAux_hit {s : Bytes} (n : Nat) (h : matchHere s = true) :
+    unsignAllAux (n + 1) s = signingToken ++ unsignAllAux n (s.drop matchLen) := by
+  cases s with
+  | nil => rw [matchHere_nil] at h; cases h
+  | cons x xs => simp [unsignAllAux, h]
+
+theorem unsignAllAux_none : ∀ (Y : Bytes) (n : Nat),
+    (∀ k, matchHere (Y.drop k) = false) → unsignAllAux n Y = Y := by
+  intro Y
+  induction Y with
+  | nil => intro n _; cases n <;> simp [unsignAllAux]
+  | cons x Y ih =>
+    intro n h
+    cases n with
+    | zero => simp [unsignAllAux]
+    | succ n =>
+      have h0 : matchHere (x :: Y) = false := by simpa using h 0
+      have ht : ∀ k, matchHere (Y.drop k) = false := by
+        intro k
+        simpa using h (k + 1)
+      simp only [unsignAllAux, h0]
+      simp [ih n ht]
+
+theorem unsign_eq (s : Bytes) : unsign s = unsignAllAux s.length s := by
+  simp [unsign, unsignReplacesAll]
+
+/-! ### `firstMatchAux` -/
+
+theorem firstMatchAux_pass : ∀ (X Y : Bytes) (i : Nat),
+    (∀ k, k < X.length → matchHere ((X ++ Y).drop k) = false) →
+    firstMatchAux (X ++ Y) i = firstMatchAux Y (i + X.length) := by
+  intro X
+  induction X with
+  | nil => intro Y i _; simp
+  | cons x X ih =>
+    intro Y i h
+    have h0 : matchHere (x :: (X ++ Y)) = false := by
+      have := h 0 (by simp)
+      simpa using this
+    have ht : ∀ k, k < X.length → matchHere ((X ++ Y).drop k) = false := by
+      intro k hk
+      have := h (k + 1) (by simp; omega)
+      simpa using this
+    simp only [List.cons_append, firstMatchAux, h0]
+    rw [ih Y (i + 1) ht]
+    simp [Nat.add_assoc, Nat.add_comm 1]
+
+theorem firstMatchAux_hit {s : Bytes} (i : Nat) (h : matchHere s = true) :
+    firstMatchAux s i = some i := by
+  cases s with
+  | nil => rw [matchHere_nil] at h; cases h
+  | cons x xs => simp [firstMatchAux, h]
+
+theorem firstMatchAux_none : ∀ (Y : Bytes) (i : Nat),
+    (∀ k, matchHere (Y.drop k) = false) → firstMatchAux Y i = none := by
+  intro Y
+  induction Y with
+  | nil => intro i _; simp [firstMatchAux]
+  | cons x Y ih =>
+    intro i h
+    have h0 : matchHere (x :: Y) = false := by simpa using h 0
+    have ht : ∀ k, matchHere (Y.drop k) = false := by
+      intro k
+      simpa using h (k + 1)
+    simp only [firstMatchAux, h0]
+    simp [ih (i + 1) ht]
+
+theorem firstMatchAux_some : ∀ (s : Bytes) (j i : Nat), firstMatchAux s j = some i →
+    ∃ d, i = j + d ∧ matchHere (s.drop d) = true := by
+  intro s
+  induction s with
+  | nil => intro j i h; simp [firstMatchAux] at h
+  | cons x xs ih =>
+    intro j i h
+    by_cases hm : matchHere (x :: xs) = true
+    · simp [firstMatchAux, hm] at h
+      exact ⟨0, by omega, by simpa using hm⟩
+    · simp [firstMatchAux, hm] at h
+      obtain ⟨d, hd, hmd⟩ := ih (j + 1) i h
+      exact ⟨d + 1, by omega, by simpa using hmd⟩
+
+theorem firstMatch_some {s : Bytes} {i : Nat} (h : firstMatch s = some i) :
+    matchHere (s.drop i) = true := by
+  obtain ⟨d, hd, hmd⟩ := firstMatchAux_some s 0 i h
+  have : i = d := by omega
+  rw [this]; exact hmd
+
+theorem firstMatchAux_congr : ∀ (s s' : Bytes) (i : Nat), s.length = s'.length →
+    (∀ k, matchHere (s.drop k) = matchHere (s'.drop k)) →
+    firstMatchAux s i = firstMatchAux s' i := by
+  intro s
+  induction s with
+  | nil =>
+    intro s' i hl _
+    cases s' with
+    | nil => rfl
+    | cons y ys => simp at hl
+  | cons x xs ih =>
+    intro s' i hl h
+    cases s' with
+    | nil => simp at hl
+    | cons y ys =>
+      have h0 : matchHere (x :: xs) = matchHere (y :: ys) := by simpa using h 0
+      have ht : ∀ k, matchHere (xs.drop k) = matchHere (ys.drop k) := by
+        intro k
+        simpa using h (k + 1)
+      have hl' : xs.length = ys.length := by simpa using hl
+      simp only [firstMatchAux, h0, ih ys (i + 1) hl' ht]
+
+/-! ### `isValidSignature` -/
+
+theorem isValidSignature_elim {h : Bytes → Bytes} {s : Bytes} (hv : isValidSignature h s = true) :
+    ∃ i, firstMatch s = some i ∧ h (unsign s) = actualHash s i := by
+  unfold isValidSignature at hv
+  cases hf : firstMatch s with
+  | none => rw [hf] at hv; simp at hv
+  | some i =>
+    rw [hf] at hv
+    exact ⟨i, rfl, by simpa using hv⟩
+
+theorem actualHash_via_take (s : Bytes) (i : Nat) :
+    actualHash s i = (((s.drop i).take matchLen).drop hashSliceStart).take
+      (matchLen - hashSliceEndBack - hashSliceStart) := by
+  unfold actualHash
+  rw [List.drop_take, List.take_take, List.drop_drop]
+  simp [matchLen_eq, hashSliceStart_eq, hashSliceEndBack_eq]
+
+/-! ### Main theorems -/
+
 theorem verify_single (h : Bytes → Bytes) (hh : HexHash h) (A B : Bytes)
     (hA : NoOccBefore newToken (A ++ genPrefix) (newToken ++ B))
     (hB : NoOccBefore newToken B [])
     (hM : ∀ k, k ≠ A.length → matchHere ((A ++ genPrefix ++ signature h (A ++ signingToken ++ B) ++ B).drop k) = false) :
     isValidSignature h (sign h (A ++ signingToken ++ B)) = true := by
-  sorry
+  rw [sign_single h A B hA hB]
+  generalize hc : A ++ signingToken ++ B = c at hM ⊢
+  obtain ⟨hl, hhex⟩ := hh c
+  -- the signed text, reassociated
+  have hs : A ++ genPrefix ++ signature h c ++ B = A ++ (rePrefix ++ (h c ++ (reSuffix ++ B))) := by
+    simp [signature, rePrefix_eq, reSuffix_eq, List.append_assoc]
+  rw [hs] at hM ⊢
+  generalize hY : rePrefix ++ (h c ++ (reSuffix ++ B)) = Y at hM ⊢
+  have hmY : matchHere Y = true := by rw [← hY]; exact matchHere_build (h c) B hl hhex
+  have hYlen : Y.length = matchLen + B.length := by
+    rw [← hY]
+    simp only [List.length_append, hl, matchLen]
+    omega
+  have hYdrop : Y.drop matchLen = B := by
+    have : Y = (rePrefix ++ h c ++ reSuffix) ++ B := by rw [← hY]; simp [List.append_assoc]
+    rw [this]
+    apply List.drop_left'
+    simp only [List.length_append, hl, matchLen]
+  have hdA : (A ++ Y).drop A.length = Y := List.drop_left
+  -- first match
+  have hfm : firstMatch (A ++ Y) = some A.length := by
+    unfold firstMatch
+    rw [firstMatchAux_pass A Y 0 (fun k hk => hM k (by omega)), firstMatchAux_hit _ hmY]
+    simp
+  -- no match in the tail
+  have hBnone : ∀ j, matchHere (B.drop j) = false := by
+    intro j
+    have := hM (A.length + (matchLen + j)) (by have := matchLen_eq; omega)
+    rw [← List.drop_drop, hdA, ← List.drop_drop, hYdrop] at this
+    exact this
+  -- unsign
+  have hun : unsign (A ++ Y) = c := by
+    rw [unsign_eq, unsignAllAux_pass A Y _ (fun k hk => hM k (by omega)) (by simp)]
+    have hf : (A ++ Y).length - A.length = (matchLen - 1 + B.length) + 1 := by
+      simp only [List.length_append, hYlen, matchLen_eq]
+      omega
+    rw [hf, unsignAllAux_hit _ hmY, hYdrop, unsignAllAux_none B _ hBnone, ← hc]
+    simp
+  -- actual hash
+  have hah : actualHash (A ++ Y) A.length = h c := by
+    unfold actualHash
+    rw [← List.drop_drop, hdA, ← hY]
+    have e1 : hashSliceStart = rePrefix.length := by decide
+    have e2 : matchLen - hashSliceEndBack - hashSliceStart = reHexLen := by decide
+    rw [e2, e1, List.drop_left, List.take_left' hl]
+  unfold isValidSignature
+  rw [hfm]
+  simp only []
+  rw [hun, hah]
+  simp
+
+theorem unsignAllAux_inj : ∀ (n : Nat) (s s' : Bytes), s.length = s'.length →
+    (∀ k, matchHere (s.drop k) = matchHere (s'.drop k)) →
+    (∀ k, matchHere (s.drop k) = true → (s.drop k).take matchLen = (s'.drop k).take matchLen) →
+    unsignAllAux n s = unsignAllAux n s' → s = s' := by
+  intro n
+  induction n with
+  | zero => intro s s' _ _ _ h; simpa [unsignAllAux] using h
+  | succ n ih =>
+    intro s s' hl hsame hagree he
+    cases s with
+    | nil =>
+      cases s' with
+      | nil => rfl
+      | cons y ys => simp at hl
+    | cons x xs =>
+      cases s' with
+      | nil => simp at hl
+      | cons y ys =>
+        have h0 : matchHere (x :: xs) = matchHere (y :: ys) := by simpa using hsame 0
+        by_cases hm : matchHere (x :: xs) = true
+        · have hm' : matchHere (y :: ys) = true := by rw [← h0]; exact hm
+          rw [unsignAllAux_hit n hm, unsignAllAux_hit n hm'] at he
+          have he' := List.append_cancel_left he
+          have htake : (x :: xs).take matchLen = (y :: ys).take matchLen := by
+            simpa using hagree 0 (by simpa using hm)
+          have hdrop : (x :: xs).drop matchLen = (y :: ys).drop matchLen := by
+            apply ih _ _ _ _ _ he'
+            · simp only [List.length_drop, hl]
+            · intro k
+              rw [List.drop_drop, List.drop_drop]
+              exact hsame _
+            · intro k hk
+              rw [List.drop_drop] at hk ⊢
+              rw [List.drop_drop]
+              exact hagree _ hk
+          rw [← List.take_append_drop matchLen (x :: xs), ← List.take_append_drop matchLen (y :: ys),
+            htake, hdrop]
+        · have hm0 : matchHere (x :: xs) = false := by simpa using hm
+          have hm' : matchHere (y :: ys) = false := by rw [← h0]; exact hm0
+          simp only [unsignAllAux, hm0, hm'] at he
+          simp at he
+          have hxs : xs = ys := by
+            apply ih _ _ _ _ _ he.2
+            · simpa using hl
+            · intro k
+              simpa using hsame (k + 1)
+            · intro k hk
+              simpa using hagree (k + 1) (by simpa using hk)
+          rw [he.1, hxs]
 
 theorem tamper_collision (h : Bytes → Bytes) (s s' : Bytes)
     (hlen : s.length = s'.length)
@@ -28,12 +411,125 @@ theorem tamper_collision (h : Bytes → Bytes) (s s' : Bytes)
     (hagree : ∀ k, matchHere (s.drop k) = true → (s.drop k).take matchLen = (s'.drop k).take matchLen)
     (hv : isValidSignature h s = true) (hv' : isValidSignature h s' = true) (hne : s ≠ s') :
     ∃ x y, x ≠ y ∧ h x = h y := by
-  sorry
+  obtain ⟨i, hfi, hhi⟩ := isValidSignature_elim hv
+  obtain ⟨i', hfi', hhi'⟩ := isValidSignature_elim hv'
+  have hff : firstMatch s = firstMatch s' := firstMatchAux_congr s s' 0 hlen hsame
+  have hii : i = i' := by
+    rw [hfi, hfi'] at hff
+    exact Option.some.inj hff
+  subst hii
+  have hah : actualHash s i = actualHash s' i := by
+    rw [actualHash_via_take, actualHash_via_take, hagree i (firstMatch_some hfi)]
+  refine ⟨unsign s, unsign s', ?_, ?_⟩
+  · intro he
+    apply hne
+    rw [unsign_eq, unsign_eq, ← hlen] at he
+    exact unsignAllAux_inj _ s s' hlen hsame hagree he
+  · rw [hhi, hhi', hah]
+
+theorem unsignAllAux_append (t : Bytes) : ∀ (n m : Nat) (s : Bytes), s.length ≤ n → s.length ≤ m →
+    (∀ k, matchHere ((s ++ t).drop k) = matchHere (s.drop k)) →
+    unsignAllAux m (s ++ t) = unsignAllAux n s ++ t := by
+  have hnil : ∀ (m : Nat), (∀ k, matchHere (([] ++ t).drop k) = matchHere (([] : Bytes).drop k)) →
+      unsignAllAux m ([] ++ t) = t := by
+    intro m h
+    apply unsignAllAux_none
+    intro k
+    have := h k
+    simpa [matchHere_nil] using this
+  intro n
+  induction n with
+  | zero =>
+    intro m s hn _ h
+    have : s = [] := by
+      cases s with
+      | nil => rfl
+      | cons x xs => simp at hn
+    subst this
+    rw [hnil m h]
+    simp [unsignAllAux]
+  | succ n ih =>
+    intro m s hn hm h
+    cases s with
+    | nil =>
+      rw [hnil m h]
+      simp [unsignAllAux]
+    | cons x xs =>
+      cases m with
+      | zero => simp at hm
+      | succ m =>
+        have h0 : matchHere (x :: xs ++ t) = matchHere (x :: xs) := by simpa using h 0
+        by_cases hmx : matchHere (x :: xs) = true
+        · have hmx' : matchHere (x :: xs ++ t) = true := by rw [h0]; exact hmx
+          have hlen := matchHere_length hmx
+          rw [unsignAllAux_hit n hmx, unsignAllAux_hit m hmx', List.drop_append_of_le_length hlen,
+            ih m ((x :: xs).drop matchLen)]
+          · simp
+          · rw [List.length_drop]; have := matchLen_eq; omega
+          · rw [List.length_drop]; have := matchLen_eq; omega
+          · intro k
+            rw [← List.drop_append_of_le_length hlen, List.drop_drop, List.drop_drop]
+            exact h _
+        · have hm0 : matchHere (x :: xs) = false := by simpa using hmx
+          have hm0' : matchHere (x :: (xs ++ t)) = false := by
+            rw [← hm0, ← h0]; rfl
+          simp only [List.cons_append, unsignAllAux, hm0, hm0']
+          have := ih m xs (by simpa using hn) (by simpa using hm) (by
+            intro k
+            simpa using h (k + 1))
+          simp [this]
+
+theorem firstMatchAux_append (t : Bytes) : ∀ (s : Bytes) (i : Nat),
+    (∀ k, matchHere ((s ++ t).drop k) = matchHere (s.drop k)) →
+    firstMatchAux (s ++ t) i = firstMatchAux s i := by
+  intro s
+  induction s with
+  | nil =>
+    intro i h
+    rw [firstMatchAux_none]
+    · simp [firstMatchAux]
+    · intro k
+      have := h k
+      simpa [matchHere_nil] using this
+  | cons x xs ih =>
+    intro i h
+    have h0 : matchHere (x :: (xs ++ t)) = matchHere (x :: xs) := by simpa using h 0
+    have ht : ∀ k, matchHere ((xs ++ t).drop k) = matchHere (xs.drop k) := by
+      intro k
+      simpa using h (k + 1)
+    simp only [List.cons_append, firstMatchAux, h0, ih (i + 1) ht]
 
 theorem append_collision (h : Bytes → Bytes) (s t : Bytes) (ht : t ≠ [])
     (hnm : ∀ k, matchHere ((s ++ t).drop k) = matchHere (s.drop k))
     (hv : isValidSignature h s = true) (hv' : isValidSignature h (s ++ t) = true) :
     ∃ x y, x ≠ y ∧ h x = h y := by
-  sorry
+  obtain ⟨i, hfi, hhi⟩ := isValidSignature_elim hv
+  obtain ⟨i', hfi', hhi'⟩ := isValidSignature_elim hv'
+  have hff : firstMatch (s ++ t) = firstMatch s := firstMatchAux_append t s 0 hnm
+  have hii : i' = i := by
+    rw [hfi, hfi'] at hff
+    exact Option.some.inj hff
+  subst hii
+  have hun : unsign (s ++ t) = unsign s ++ t := by
+    rw [unsign_eq, unsign_eq]
+    exact unsignAllAux_append t s.length (s ++ t).length s (Nat.le_refl _) (by simp) hnm
+  have hmi := matchHere_length (firstMatch_some hfi)
+  rw [List.length_drop] at hmi
+  have hah : actualHash (s ++ t) i' = actualHash s i' := by
+    unfold actualHash
+    have := matchLen_eq
+    have := hashSliceStart_eq
+    have := hashSliceEndBack_eq
+    rw [List.drop_append_of_le_length (by omega), List.take_append_of_le_length]
+    rw [List.length_drop]
+    omega
+  refine ⟨unsign s, unsign (s ++ t), ?_, ?_⟩
+  · rw [hun]
+    intro he
+    have hl := congrArg List.length he
+    simp only [List.length_append] at hl
+    have : t.length = 0 := by omega
+    exact ht (List.length_eq_zero_iff.mp this)
+  · rw [hhi, hhi', hah]
 
 end IsoVerif.Signed
